@@ -254,6 +254,9 @@ func ColdStart(ch *Check, k int) int {
 	if ch == nil || ch.SpiceCall == nil || len(ch.Spice) == 0 {
 		return 0
 	}
+	if k%2 == 1 && ch.Plan != nil && ch.Gen != nil && ch.One != nil && ch.Custom == nil {
+		return coldFirstCalls(ch, k)
+	}
 	start := make(chan struct{})
 	var wg sync.WaitGroup
 	for g := 0; g < 16; g++ {
@@ -276,6 +279,57 @@ func ColdStart(ch *Check, k int) int {
 			fmt.Println("COLDSTART-VIOLATION " + msg)
 			return 3
 		}
+	}
+	return 0
+}
+
+// coldFirstCalls: the monitored cases themselves as the first library calls
+// of a process - the first few cases of ~40 units spread over the plan, one
+// goroutine, no history inputs. State that is built lazily on first use by
+// SOME inputs (a table initialised only on one branch) is still unbuilt here,
+// whereas in the runner some other worker has long triggered it.
+type stopGen struct{}
+
+func coldFirstCalls(ch *Check, k int) int {
+	r := &Run{Check: ch, Tier: "coldstart", Seed: 1, Workers: 1, start: time.Now()}
+	r.rep = Report{Property: ch.ID, Obs: map[string]map[string]uint64{}, Counters: map[string]uint64{}}
+	r.bits = make([]uint64, 1<<10)
+	r.bitMask = (1 << 16) - 1
+	if ch.MaxStack > 0 {
+		setMaxStack(ch.MaxStack)
+	}
+	w := newWorker(r, 0)
+	w.noSpice = true
+	units := ch.Plan("quick", 1)
+	if len(units) == 0 {
+		return 0
+	}
+	step := len(units)/40 + 1
+	for ui := (k / 2) % step; ui < len(units) && len(w.viols) == 0; ui += step {
+		n := 0
+		func() {
+			defer func() {
+				if x := recover(); x != nil {
+					if _, ok := x.(stopGen); !ok {
+						panic(x)
+					}
+				}
+			}()
+			ch.Gen(w, units[ui], func(c Case) {
+				if len(c.In) <= 1<<16 {
+					w.Do(c)
+				}
+				n++
+				if n >= 5 || len(w.viols) > 0 {
+					panic(stopGen{})
+				}
+			})
+		}()
+	}
+	if len(w.viols) > 0 {
+		v := w.viols[0]
+		fmt.Printf("COLDSTART-VIOLATION kind=%s input=%s: %s\n", v.Kind, trunc(strconv.Quote(v.Case.In), 300), strings.ReplaceAll(trunc(v.Detail, 600), "\n", " | "))
+		return 3
 	}
 	return 0
 }
@@ -304,9 +358,16 @@ func coldStartProbes(env Env, ch *Check) []Violation {
 				if j := strings.IndexByte(msg, '\n'); j >= 0 {
 					msg = msg[:j]
 				}
-				return []Violation{{Property: ch.ID, Kind: "damaged-at-first-use", Confirmed: true,
-					Case:   Case{Desc: "first calls of a process from 16 goroutines at once"},
-					Detail: "in a fresh process whose first library calls were made by 16 goroutines at the same moment: " + msg}}
+				kind := "damaged-at-first-use"
+				if strings.HasPrefix(msg, "kind=") {
+					// first-calls mode: the monitor's own kind, observed on the first calls of a process
+					if sp := strings.IndexByte(msg, ' '); sp > 5 {
+						kind = msg[5:sp] + "-in-first-calls"
+					}
+				}
+				return []Violation{{Property: ch.ID, Kind: kind, Confirmed: true,
+					Case:   Case{Desc: "first use in a fresh process"},
+					Detail: "in a fresh process right at first use (even-numbered probes: first calls from 16 goroutines at once; odd-numbered: the monitored cases as the first calls): " + msg}}
 			}
 		}
 		if msg, fn := libraryConcurrencyFatal(lf); msg != "" {
